@@ -766,10 +766,21 @@ func flReader(c *Ctx, a *flAgg) {
 				}
 			}
 			// the Read target is the free tail
+			// w += n with n known to be 0 on this path leaves w where it was
+			stripZero := func(v *Expr) *Expr {
+				for v != nil && v.Op == OpBin && v.Tok == token.ADD && len(v.Args) == 2 {
+					if pos0, ok := p.lit("(0 < " + v.Args[1].String() + ")"); ok && !pos0 {
+						v = v.Args[0]
+						continue
+					}
+					break
+				}
+				return v
+			}
 			curW := "r.w"
 			for _, ev := range p.Events {
 				if ev.Kind == EvStore && strings.HasSuffix(ev.Addr.String(), "r.w") {
-					curW = ev.Val.String()
+					curW = stripZero(ev.Val).String()
 				}
 				if !(ev.Kind == EvCall && isRead(ev.Val)) {
 					continue
@@ -777,7 +788,7 @@ func flReader(c *Ctx, a *flAgg) {
 				r := ev
 				if len(r.Val.Args) == 2 {
 					arg := r.Val.Args[1]
-					if arg.Op == OpSlice && strings.HasPrefix(arg.Args[0].String(), "&r.buf") && arg.Args[1] != nil && arg.Args[2] == nil && arg.Args[1].String() == curW {
+					if arg.Op == OpSlice && strings.HasPrefix(arg.Args[0].String(), "&r.buf") && arg.Args[1] != nil && arg.Args[2] == nil && stripZero(arg.Args[1]).String() == curW {
 						a.ok("FL-fill-slide", "fill/read-target", "Read fills the free tail buf[w:]", r.Pos)
 					} else {
 						a.bad("FL-fill-slide", "fill/read-target", "Read is not given buf[w:]: "+arg.String(), r.Pos)
